@@ -225,5 +225,8 @@ func c04WholeGen(r *rand.Rand, tier string) *sim.Scn {
 		s.Cfg["kstep"] = 1
 		s.Cfg["k0"] = 0
 	}
+	if tier != "thorough" && s.Cfg["jitter"] > 400 {
+		s.Cfg["jitter"] = 400 // the slowest goroutines make a whole-node scenario take minutes: thorough tier only
+	}
 	return s
 }
